@@ -1,4 +1,5 @@
 import ModbusModel.Lemmas.Health
+import ModbusModel.Lemmas.Call
 /-
   C12 – A failed call never desynchronises the calls that follow it.
 -/
@@ -85,5 +86,112 @@ example :
     = [some (.done (.transport .invalidData)), some (.done (.ok (.readHoldingRegisters [2]))),
        some (.done (.ok (.readHoldingRegisters [3])))] := by
   decide +kernel
+
+/-- a connected client whose framing layer is in order, on a transport that is open and
+    takes every write -/
+structure Clean (c : Client) (t : Transport) : Prop where
+  connected : c.framed.isSome = true
+  healthy : c.Healthy
+  wbuf : c.wbuf = []
+  writes : t.writes = []
+  flushes : t.flushes = []
+  isOpen : ∀ e ∈ t.reads, e.isOpen = true
+
+/-- operations of a history on such a transport: calls with any outcome the *read* side can
+    produce (replies of any kind, junk, read errors – anything but end of stream), polled any
+    number of times or abandoned; slave changes -/
+def benign : Op → Prop
+  | .call _ ext _ => ext.writes = [] ∧ ext.flushes = [] ∧ ∀ e ∈ ext.reads, e.isOpen = true
+  | .setSlave _ => True
+  | .disconnect _ => False
+
+theorem step_clean (c : Client) (t : Transport) (op : Op) (h : Clean c t) (hb : benign op) :
+    Clean (stepOp c t op).2.1 (stepOp c t op).2.2 := by
+  cases op with
+  | disconnect ext => exact absurd hb (by simp [benign])
+  | setSlave id =>
+    exact ⟨by simpa [stepOp, Client.setSlave] using h.connected,
+      fun f hf => h.healthy f (by simpa [stepOp, Client.setSlave] using hf),
+      by simpa [stepOp, Client.setSlave, Client.wbuf] using h.wbuf,
+      by simpa [stepOp] using h.writes, by simpa [stepOp] using h.flushes, by simpa [stepOp] using h.isOpen⟩
+  | call req ext b =>
+    obtain ⟨hw, hf, ho⟩ := hb
+    have ho' : ∀ e ∈ (t.extend ext).reads, e.isOpen = true := by
+      intro e he
+      simp only [Transport.extend, List.mem_append] at he
+      rcases he with he | he
+      · exact h.isOpen e he
+      · exact ho e he
+    have hw' : (t.extend ext).writes = [] := by simp [Transport.extend, h.writes, hw]
+    have hf' : (t.extend ext).flushes = [] := by simp [Transport.extend, h.flushes, hf]
+    have h1 := call_health c req (t.extend ext) b h.healthy ho'
+    have h2 := call_wclean c req (t.extend ext) b h.wbuf hw' hf'
+    have h3 := call_connected c req (t.extend ext) b
+    exact ⟨by simpa [stepOp, h.connected] using h3, by simpa [stepOp] using h1.1,
+      by simpa [stepOp] using h2.1, by simpa [stepOp] using h2.2.1, by simpa [stepOp] using h2.2.2,
+      by simpa [stepOp] using h1.2⟩
+
+theorem history_clean (ops : List Op) (c : Client) (t : Transport) (h : Clean c t)
+    (hops : ∀ op ∈ ops, benign op) : Clean (runOps c t ops).2.1 (runOps c t ops).2.2 := by
+  induction ops generalizing c t with
+  | nil => simpa [runOps] using h
+  | cons op ops ih =>
+    simp only [runOps]
+    exact ih _ _ (step_clean c t op h (hops op (by simp))) (fun o ho => hops o (by simp [ho]))
+
+theorem step_kind (c : Client) (t : Transport) (op : Op) : (stepOp c t op).2.1.kind = c.kind := by
+  cases op with
+  | setSlave id => rfl
+  | disconnect ext => simp only [stepOp, Client.disconnect]; split <;> rfl
+  | call req ext b =>
+    by_cases hb : b = some 0
+    · subst hb; simp [stepOp, call_unpolled]
+    · simpa [stepOp] using (call_frame c req (t.extend ext) b hb).2.1
+
+theorem history_kind (ops : List Op) (c : Client) (t : Transport) : (runOps c t ops).2.1.kind = c.kind := by
+  induction ops generalizing c t with
+  | nil => rfl
+  | cons op ops ih => simp only [runOps]; rw [ih, step_kind]
+
+theorem attach_clean (k : Kind) (slave : UInt8) : Clean (Client.attachSlave k slave) {} :=
+  ⟨rfl, (attach_healthy k slave).1, rfl, rfl, rfl, by simp⟩
+
+/-- **(b) each call performs its own complete exchange.**  After ANY history of earlier calls –
+    successes, exceptions, mismatches, undecodable frames, retry overflows, transient read
+    errors, abandoned calls, whatever surplus they left in the receive buffer – on a transport
+    that stays open: when the bytes that arrive after the request has been written start with a
+    valid reply frame (in any fragmentation), the call returns the verdict on exactly that
+    frame. -/
+theorem exchange_after_history {k : Kind} (F : Framing (clientDecoder k)) (slave : UInt8) (ops : List Op)
+    (hops : ∀ op ∈ ops, benign op)
+    (req : Request) (ext : Transport) (reply tail frame : Bytes)
+    (hew : ext.writes = []) (hef : ext.flushes = [])
+    (hfeed : ∀ e ∈ ((runOps (Client.attachSlave k slave) {} ops).2.2.extend ext).reads, e.isFeed = true)
+    (hdata : dataOf ((runOps (Client.attachSlave k slave) {} ops).2.2.extend ext).reads = reply ++ tail)
+    (hv : F.Valid reply) (hne : reply ≠ [])
+    (henc : clientEncode k (stampedHdr (runOps (Client.attachSlave k slave) {} ops).2.1) req = .ok frame)
+    (hfne : frame ≠ []) :
+    ∃ c' t', (runOps (Client.attachSlave k slave) {} ops).2.1.call req
+          ((runOps (Client.attachSlave k slave) {} ops).2.2.extend ext) none
+        = (.done (classify (stampedHdr (runOps (Client.attachSlave k slave) {} ops).2.1) req.functionCode
+            (F.item reply).1 (F.item reply).2), c', t', [.write frame]) := by
+  have hc := history_clean ops _ _ (attach_clean k slave) hops
+  have hkind : (runOps (Client.attachSlave k slave) {} ops).2.1.kind = k := history_kind ops _ _
+  generalize (runOps (Client.attachSlave k slave) {} ops).2.1 = c at *
+  generalize (runOps (Client.attachSlave k slave) {} ops).2.2 = t at *
+  obtain ⟨f, hf⟩ := Option.isSome_iff_exists.mp hc.connected
+  have hh := hc.healthy f hf
+  have hr : Ready c (t.extend ext) (reply ++ tail) :=
+    ⟨⟨f, hf, by simpa [Client.wbuf, hf] using hc.wbuf, hh.1, hh.2⟩,
+      by simp [Transport.extend, hc.writes, hew], by simp [Transport.extend, hc.flushes, hef], hfeed, hdata⟩
+  obtain ⟨c', t', h, _⟩ := call_generic F c req (t.extend ext) reply tail frame hkind hr hv hne henc hfne
+  exact ⟨c', t', h⟩
+
+-- non-vacuity: a benign history (junk reply, then an abandoned call) is `benign`
+example : ∀ op ∈ [Op.call (.readCoils 0 1) { reads := [.data [1, 2, 3, 4, 5, 6, 7, 8, 9]] } none,
+                  Op.call (.readCoils 0 1) { reads := [.pending, .pending] } (some 2), Op.setSlave 3], benign op := by
+  intro op h
+  simp only [List.mem_cons, List.mem_nil_iff, or_false] at h
+  rcases h with rfl | rfl | rfl <;> simp [benign, ReadEv.isOpen]
 
 end Modbus.Props.C12
